@@ -4,12 +4,15 @@ C25 — time rescaling is an order-preserving recalibration
 `piecewise_scale_posterior`, tsdate/rescaling.py; `Model/Rescale.lean`).
 
 `pwlPre ob rb = true` is exactly what the code asserts ("Use fewer rescaling intervals": both break
-vectors strictly increasing, same size).  It can fail on valid inputs — that is finding F5, which belongs
-to property C35; `timescale_strict_iff` characterises when.  All statements are over an arbitrary
+vectors strictly increasing, same size).  Before fix fa21a50 it could fail on valid inputs (finding F5,
+property C35); since that fix `mutational_timescale` merges uninformative intervals and
+`timescale_breaks_strict` proves that the breaks it returns always satisfy the precondition;
+`timescale_strict_iff` + `merge_noop_when_informative` say exactly when merging changes anything.  All statements are over an arbitrary
 linear ordered field (exact arithmetic); the same definitions run at `Float` agree with numba
 bit-for-bit on generated inputs.
 -/
 import TsdateVerif.Proofs.RescaleAux
+import TsdateVerif.Proofs.RescaleIter
 
 namespace Tsdate.C25
 open Tsdate.Rescale
@@ -263,13 +266,44 @@ theorem compose_monotone (maps : List (List α × List α))
       pwl_monotone m.1 m.2 h1 h4 x y (by rw [hhead]; exact hx) hxy
     exact ih (fun m' hm' => hm m' (List.mem_cons_of_mem _ hm')) _ _ hx' hxy'
 
-/-! ### when is the asserted precondition true? (characterises finding F5 of C35) -/
+/-! ### the breaks returned by `mutational_timescale` (repair of finding F5) -/
+
+/-- **`timescale_breaks_strict`: the breakpoints returned by `mutational_timescale` always satisfy the
+precondition asserted by `piecewise_scale_point_estimate` / `piecewise_scale_posterior`** — both vectors
+strictly increasing, same size — and start at (0, 0): the "Use fewer rescaling intervals" assertions can
+no longer fire.  `origin, adjust` are the raw breakpoints before the merging step; the only hypothesis is
+that the first raw original break is below the last one (true as soon as two node times differ). -/
+theorem timescale_breaks_strict (cast : Nat → α) (times : List α) (lik : List (α × α)) (edges : List Edge)
+    (m : Nat) (origin adjust : List α)
+    (hraw : mutationalTimescaleRaw cast times lik edges m = some (origin, adjust))
+    (hid : lget origin 0 < lget origin (origin.length - 1)) :
+    ∃ ob rb, mutationalTimescale cast times lik edges m = some (ob, rb) ∧ pwlPre ob rb = true ∧
+      ob ≠ [] ∧ lget ob 0 = 0 ∧ lget rb 0 = 0 := by
+  have hts : mutationalTimescale cast times lik edges m = some (mergeBreaks origin adjust) := by
+    simp [mutationalTimescale, hraw]
+  refine ⟨(mergeBreaks origin adjust).1, (mergeBreaks origin adjust).2, hts, merge_pre origin adjust hid, ?_⟩
+  exact timescale_zero cast times lik edges m _ _ hts
+
+/-- **Nothing is merged when every interval is informative**: if the raw breakpoints strictly increase in
+both coordinates (for the rescaled ones that is `timescale_strict_iff`: every interval carries mutations),
+`mutational_timescale` returns them unchanged — the time scale of the code before the repair. -/
+theorem merge_noop_when_informative (cast : Nat → α) (times : List α) (lik : List (α × α))
+    (edges : List Edge) (m : Nat) (origin adjust : List α)
+    (hraw : mutationalTimescaleRaw cast times lik edges m = some (origin, adjust))
+    (hl : origin.length = adjust.length) (h2 : 2 ≤ origin.length)
+    (ho : strictlyIncreasing origin = true) (ha : strictlyIncreasing adjust = true) :
+    mutationalTimescale cast times lik edges m = some (origin, adjust) := by
+  simp only [mutationalTimescale, hraw, Option.map_some]
+  rw [merge_noop_of_strict origin adjust hl h2 ((inc_iff origin).mp ho) ((inc_iff adjust).mp ha)]
+
+/-! ### when are the raw rescaled breaks strictly increasing? (the mechanism of finding F5) -/
 
 /-- **`timescale_strict_iff`: the rescaled breaks returned by `mutational_timescale` strictly increase
 iff every interval between consecutive changepoints carries a positive total mutation count.**
 (`adjustSteps … = some steps` says the code's own `assert n > 0` passed; durations of intervals are
-positive because node times are distinct.)  When some interval has no mutations the next call asserts
-`np.all(np.diff(rescaled_breaks) > 0)` and stops with "Use fewer rescaling intervals" — finding F5. -/
+positive because node times are distinct.)  When some interval has no mutations the raw breaks repeat; before
+fix fa21a50 the next call then stopped with "Use fewer rescaling intervals" (finding F5), now those
+intervals are merged into their neighbours (`timescale_breaks_strict`). -/
 theorem timescale_strict_iff (counts offset duration : List α) (cps : List Nat) (steps : List α)
     (h : adjustSteps counts offset duration cps = some steps)
     (hz : ∀ ij ∈ pairsOf cps, 0 < lsum (slice duration ij.1 ij.2)) :
